@@ -13,8 +13,9 @@
    Two client disciplines are judged:
      strict  (the letter of C01: "the state handed to it on joining, updated by every broadcast it has received
               SINCE"): a broadcast that arrives before the SessionState / VikjaState / OdalState is overwritten by it;
-     lenient (the most forgiving client we can think of): what arrives between the join request and the states
-              handed on joining is buffered and applied after them ([hoist]), and a broadcast that cannot be applied
+     lenient (the most forgiving client we can think of): what arrives between the join RESPONSE and the states
+              handed on joining is buffered and applied after them, what arrives between the join request and the
+              join response is ignored ([hoist]), and a broadcast that cannot be applied
               when it arrives and would create or change something (an action of an unknown entity, an update of an
               unknown component, ...) is dropped instead of being applied anyway; removals are idempotent.
    A finding that survives the lenient discipline cannot be blamed on the client.
@@ -135,15 +136,23 @@ Definition step_item (lenient : bool) (s : cst) (i : item) : cst :=
 Definition is_join_own (i : item) : bool := match i with IOwn (RJoin _ _ _) | ILeft => true | _ => false end.
 Definition is_init_item (i : item) : bool :=
   match i with IRecv (MJoinResp _ _ _ _) => true | IRecv m => is_state_msg m | _ => false end.
-Fixpoint hoist_go (l pre states others : list item) : list item :=
+Definition is_join_resp (i : item) : bool := match i with IRecv (MJoinResp _ _ _ _) => true | _ => false end.
+(* [seen]: the join response of the episode has arrived.  What the connection is sent between its join request and
+   the join response is dropped: for a connection that moves from one session to another those are broadcasts of the
+   session it is leaving (broadcasts carry no session id); for a first join they are changes the server made before it
+   computed the states it hands over next, which therefore already contain them *)
+Fixpoint hoist_go (seen : bool) (l pre states others : list item) : list item :=
   match l with
   | [] => pre ++ states ++ others
   | i :: l' =>
-      if is_join_own i then hoist_go l' (pre ++ states ++ others ++ [i]) [] []
-      else if is_init_item i then hoist_go l' pre (states ++ [i]) others
-      else hoist_go l' pre states (others ++ [i])
+      if is_join_own i then hoist_go false l' (pre ++ states ++ others ++ [i]) [] []
+      else if is_init_item i then hoist_go (seen || is_join_resp i) l' pre (states ++ [i]) others
+      else match i with
+           | IRecv _ => if seen then hoist_go seen l' pre states (others ++ [i]) else hoist_go seen l' pre states others
+           | _ => hoist_go seen l' pre states (others ++ [i])
+           end
   end.
-Definition hoist (l : list item) : list item := hoist_go l [] [] [].
+Definition hoist (l : list item) : list item := hoist_go true l [] [] [].
 
 Definition run_conn (lenient : bool) (its : list item) : cst :=
   fold_left (step_item lenient) (if lenient then hoist its else its) cst0.
